@@ -746,7 +746,17 @@ for (int n = 0; n < count; n++)
     {
       define++;
 
-      const char *param = params + params_ptr[((int)*define) - 1];
+      // A 1 in the macro text that didn't come from macros_parse() (a
+      // control character in the source) is not a parameter reference.
+      const int index = ((uint8_t)*define) - 1;
+
+      if (index < 0 || index >= count)
+      {
+        print_error(asm_context, "Invalid character in macro");
+        return nullptr;
+      }
+
+      const char *param = params + params_ptr[index];
 
       // Leave room for the terminating 0 that is added after the loop.
       if (ptr + strlen(param) >= PARAM_STACK_LEN - 1)
